@@ -84,6 +84,7 @@ class LowerBase:
         self.enum_cache = {}
         self.used_cnames = set()
         self.string_lits = {}
+        self.cur_calls = None
         self.warnings = []
 
     # ================================================================= types
@@ -116,6 +117,11 @@ class LowerBase:
         nb = self.normalize_tname(b)
         if nb != b:
             return self.resolve_base(nb, ctx_node)
+        if '<' not in b:
+            cands = set(i for k, i in self.ast.typemap.items() if k.endswith('::' + b))
+            if len(cands) == 1:
+                did = cands.pop()
+                return ('enum', did) if self.ast.node(did).get('kind') == 'EnumDecl' else ('rec', did)
         raise Unsupported('unresolved type %r (context %s)' % (b, self.ast.loc(ctx_node) if ctx_node else '?'))
 
     def normalize_tname(self, b):
@@ -283,6 +289,11 @@ class LowerBase:
             return self.wrap_to_type(v, e)
         if k == 'SubstNonTypeTemplateParmExpr':
             return self.const_value(e['inner'][-1])
+        if k == 'SizeOfPackExpr':
+            try:
+                return self.pack_size(e)
+            except Unsupported:
+                return None
         if k in ('CXXNoexceptExpr', 'TypeTraitExpr') and 'value' in e:
             return 1 if e['value'] else 0
         if k in ('DeclRefExpr', 'MemberExpr'):
@@ -517,12 +528,16 @@ class LowerBase:
     def fn_cname(self, fn):
         key = self.fn_key(fn)
         if key in self.fn_names:
+            if self.cur_calls is not None:
+                self.cur_calls.add(self.fn_names[key])
             return self.fn_names[key]
         d = self.ast.definition(fn)
         nm = d.get('name', 'fn')
         q = self.ast.qualname(d)
         if not self.ast.in_namespace(d, LIFT_NS) and nm in C_LIB_PASSTHRU:
             self.fn_names[key] = nm
+            if self.cur_calls is not None:
+                self.cur_calls.add(nm)
             return nm
         parts = q.split('::')
         if parts and parts[0] == 'tao':
@@ -537,6 +552,8 @@ class LowerBase:
             base = base.replace('_', 'dtor_', 0) + '_dtor'
         base = re.sub(r'_+', '_', base).strip('_')
         cname = '%s_%s' % (base, short_hash(key, 8))
+        if self.cur_calls is not None:
+            self.cur_calls.add(cname)
         self.fn_names[key] = cname
         self.fn_nodes[cname] = d
         self.fn_work.append(d)
